@@ -13,6 +13,7 @@ import IslaVerif.Driver.Sem
 import IslaVerif.Driver.C02
 import IslaVerif.Driver.TreeOps
 import IslaVerif.Driver.Alpha
+import IslaVerif.Driver.Targets
 namespace IslaVerif.Driver
 open IslaVerif
 
@@ -32,6 +33,7 @@ def dispatch : Sexp → Sexp
   | .list (.atom "c02" :: rest) => C02.handle rest
   | .list (.atom "tree" :: rest) => TreeOpsD.handle rest
   | .list (.atom "alpha" :: rest) => AlphaD.handle rest
+  | .list (.atom "tgt" :: rest) => TargetsD.handle rest
   | _ => .atom "bad-request"
 
 end IslaVerif.Driver
